@@ -53,6 +53,7 @@ package balanced
 import (
 	"errors"
 
+	dag "github.com/ipfs/boxo/ipld/merkledag"
 	ft "github.com/ipfs/boxo/ipld/unixfs"
 	h "github.com/ipfs/boxo/ipld/unixfs/importer/helpers"
 	ipld "github.com/ipfs/go-ipld-format"
@@ -146,6 +147,17 @@ func Layout(db *h.DagBuilderHelper) (ipld.Node, error) {
 	}
 
 	if db.HasFileAttributes() {
+		if _, ok := root.(*dag.ProtoNode); !ok {
+			// A raw-leaf root cannot carry mode/mtime: wrap it in a dag-pb
+			// file node. Files imported without attributes are unaffected.
+			wrapper := db.NewFSNodeOverDag(ft.TFile)
+			if err = wrapper.AddChild(root, uint64(len(root.RawData())), db); err != nil {
+				return nil, err
+			}
+			if root, err = wrapper.Commit(); err != nil {
+				return nil, err
+			}
+		}
 		err = db.SetFileAttributes(root)
 		if err != nil {
 			return nil, err
